@@ -2,7 +2,7 @@
 import hashlib
 import random
 
-from vmon import env, ir as irmod, perturb as pert, rec
+from vmon import env, ir as irmod, perturb as pert, preempt, rec
 
 ID = "C02"
 LEVEL = "exploration"
@@ -33,7 +33,17 @@ def gen_cases(tier, seed):
         r = random.Random(env.seed_for(s, "descriptor"))  # independent of the stream run_case derives from the same seed
         out.append({"seed": s, "n": r.randint(1, maxcalls), "tier": tier, "break_unpack": r.random() < 0.08,
                     "cfg": {"p_cont": 0.4, "p_opq": 0.2, "p_unpack": 0.2, "p_kw": 0.3}})
+    out.extend(preempt.gen_descs(tier, seed, ID))  # "the same for every ... timing": deterministic single-preemption enumeration
     return out
+
+
+def preempt_oracle(R, ir):
+    if R.exc is not None:
+        return f"run raised {R.exc!r} (cause {R.exc.__cause__!r}) but direct evaluation succeeds"
+    want, _ = irmod.evaluate(ir)
+    if not irmod.struct_eq(R.result, want):
+        return f"run returned {irmod.canon(R.result)[:200]}; direct evaluation gives {irmod.canon(want)[:200]}"
+    return None
 
 
 def compare_args(ir, E, nid, seen):
@@ -68,6 +78,10 @@ def compare_args(ir, E, nid, seen):
 def run_case(desc):
     import uberjob
 
+    if desc.get("mode") == "preempt1":
+        r_ = preempt.enumerate_case(desc, preempt_oracle)
+        r_.setdefault("sets", {})["features_exercised"] = ["preempt1"]
+        return r_
     seed = desc["seed"]
     rng = random.Random(seed)
     ir = irmod.gen_ir(rng, desc["n"], rich=True, cfg=desc.get("cfg"))
